@@ -85,7 +85,7 @@ def underscore_labels(reg, opts):
 
 
 def run_case(case):
-    from .. import analysis, driver
+    from .. import analysis, driver, mme
     from . import c03
     opts = case["opts"]
     fw = opts["framework"]
@@ -118,17 +118,24 @@ def run_case(case):
                         "witnesses": [], "counters": {"outside_naming_defect": 1}}
             lf = [w for w in c03w if w["mechanism"].startswith(("load-failure", "annotation-unresolvable"))]
             under = underscore_labels(a.run.registry, opts)
-            if under and fw == "attrs" and lf and "attrs generated methods" in lf[0]["msg"]:
+            under_cls = [m.name for m in a.run.registry.models if str(m.name).startswith("_")]
+            if lf and ((under and fw == "attrs" and "attrs generated methods" in lf[0]["msg"]) or
+                       (under_cls and any(repr(n)[1:-1] in lf[0]["msg"] for n in under_cls))):
                 # attrs strips the leading underscore of a private attribute for its __init__ argument: '_0x' -> '0x'
-                W("leading-underscore-label", f"keys {under!r:.100} get labels starting with an underscore; attrs cannot build __init__: {lf[0]['msg']}")
+                W("leading-underscore-label", f"keys {under!r:.100} / classes {under_cls!r:.60} get labels starting with an underscore (attrs strips it from __init__ "
+                                              f"arguments; '__x' inside a class body is name-mangled): {lf[0]['msg']}")
             else:
                 W("module-does-not-load:" + (lf[0]["mechanism"].split(":")[-1] if lf else "?"), (lf[0]["msg"] if lf else "module does not load"))
             return {"status": "violated", "witnesses": wit, "counters": {}, "nontrivial": True, "digest": digest(case)}
         a.class_maps()
         reg = a.run.registry
+        _names = [c["name"] for c in mme.census(a.code)["classes"]]
+        dup_names = {n for n in _names if _names.count(n) > 1}
         n_keys = n_renamed = 0
         for ix, m in reg.models_map.items():
             info = a.info_by_index.get(ix)
+            if m.name in dup_names:
+                continue  # two classes share this name (reported below from the census); its fields cannot be attributed
             if info is None:
                 if not naming:
                     W("class-not-found", f"no unique class for model {m.name!r}")
